@@ -1,48 +1,50 @@
 #!/usr/bin/env bash
 # Evaluate one independently written breaking change: tools/seeded_eval.sh <ID> <dir with patch.diff demo.diff meta.json> <name>
-# 1) suite passes with patch 2) demo fails with patch 3) demo passes without 4) ./check <ID> quick (and thorough if missed) against the patched copy
+# 1) existing suite passes with the patch 2) demo fails with the patch 3) demo passes without it
+# 4) ./check <ID> quick (then thorough if missed and SEEDED_THOROUGH=1) against the patched scratch copy.
+# Writes /verif/seeded/<name>/{patch.diff,demo.diff,meta.json}. Never touches /repo.
 set -u
-cd "$(dirname "$0")/.."
-V="$PWD"; id="$1"; src="$2"; name="$3"
-S="/tmp/vscratch"; rm -rf "$S"; mkdir -p "$S/root"
-cp "$V/known_findings.json" "$S/root/"
-rsync -a --exclude target --exclude .git /repo/ "$S/repo/"
-rsync -a --exclude 'target*' "$V/harness/" "$S/harness/"
-sed -i "s#/repo/#$S/repo/#" "$S/harness/Cargo.toml"
-export CARGO_TARGET_DIR=/tmp/seedeval-target-repo
+source "$(dirname "$0")/scratch_lib.sh"
+cd "$V"
+id="$1"; src="$2"; name="$3"
+pkg="$(fam_of "$id")"
+scratch_prepare "$pkg"
+T="/tmp/vscratch-target-repo-$pkg"
 demo_cmd="$(python3 -c "import json,sys;print(json.load(open('$src/meta.json'))['demo_cmd'])")"
-demo_cmd="$(echo "$demo_cmd" | sed 's/^cd [^;&]*[;&]* *//')"
+demo_cmd="$(echo "$demo_cmd" | sed -E 's/^cd [^;&]*[;&]+ *//; s/CARGO_TARGET_DIR=[^ ]+ //g; s/^export [^;&]*[;&]+ *//')"
 res_suite=NA; res_demo_with=NA; res_demo_without=NA
 (cd "$S/repo" && patch -p1 -s < "$src/patch.diff") || { echo "$name: patch does not apply"; exit 3; }
-if (cd "$S/repo" && cargo test --workspace --offline >"$S/suite.log" 2>&1); then res_suite=pass; else res_suite=FAIL; fi
-(cd "$S/repo" && patch -p1 -s < "$src/demo.diff") || { echo "$name: demo does not apply"; }
-if (cd "$S/repo" && eval "$demo_cmd" >"$S/demo_with.log" 2>&1); then res_demo_with=pass; else res_demo_with=fail; fi
-(cd "$S/repo" && patch -p1 -R -s < "$src/patch.diff")
-if (cd "$S/repo" && eval "$demo_cmd" >"$S/demo_without.log" 2>&1); then res_demo_without=pass; else res_demo_without=fail; fi
-# our check against patch only
-(cd "$S/repo" && patch -p1 -R -s < "$src/demo.diff"; patch -p1 -s < "$src/patch.diff")
-pkg="$(grep -E "^\s+[C0-9|]+\) echo fam_" "$V/check" | while read -r line; do ids="${line%%)*}"; p="${line##*echo }"; p="${p%% *}"; for i in ${ids//|/ }; do [ "$i" = "$id" ] && echo "$p"; done; done)"
-unset CARGO_TARGET_DIR
+if [ "${SKIP_REPO_TESTS:-0}" = "1" ] && [ -f "$V/seeded/$name/meta.json" ]; then
+  read -r res_suite res_demo_with res_demo_without < <(python3 -c "import json;m=json.load(open('$V/seeded/$name/meta.json'))['coordinator_verification'];print(m['existing_suite_with_patch'],m['demo_with_patch'],m['demo_without_patch'])")
+else
+  if (cd "$S/repo" && CARGO_TARGET_DIR="$T" cargo test --workspace --offline >"$S/suite.log" 2>&1); then res_suite=pass; else res_suite=FAIL; fi
+  (cd "$S/repo" && patch -p1 -s < "$src/demo.diff") || echo "$name: demo does not apply"
+  if (cd "$S/repo" && CARGO_TARGET_DIR="$T" eval "$demo_cmd" >"$S/demo_with.log" 2>&1); then res_demo_with=pass; else res_demo_with=fail; fi
+  (cd "$S/repo" && patch -p1 -R -s < "$src/patch.diff")
+  if (cd "$S/repo" && CARGO_TARGET_DIR="$T" eval "$demo_cmd" >"$S/demo_without.log" 2>&1); then res_demo_without=pass; else res_demo_without=fail; fi
+  (cd "$S/repo" && patch -p1 -R -s < "$src/demo.diff"; patch -p1 -s < "$src/patch.diff")
+fi
 caught=no; sig=""; tier_used=quick
-if (cd "$S/harness" && CARGO_TARGET_DIR=/tmp/mut-target-$pkg cargo build --release --offline -p "$pkg" >"$S/build.log" 2>&1); then
+if scratch_build "$pkg"; then
   for tier in quick thorough; do
-    out="$(VERIF_ROOT="$S/root" VERIF_SEED=1 /tmp/mut-target-$pkg/release/$pkg "$id" "$tier" 2>&1)"; rc=$?
-    if [ "$rc" = "1" ]; then caught=yes; tier_used=$tier; sig="$(echo "$out" | grep -m1 'signature:' | sed 's/.*signature: //')"; break; fi
-    [ "${SEEDED_THOROUGH:-1}" = "1" ] || break
+    out="$(scratch_run "$pkg" "$id" "$tier")"; rc=$?
+    if [ "$rc" = "1" ]; then caught=yes; tier_used=$tier; sig="$(echo "$out" | grep -m1 'signature:' | sed 's/.*signature: //')"; msg="$(echo "$out" | grep -m1 'message:' | cut -c1-400)"; break; fi
+    [ "${SEEDED_THOROUGH:-0}" = "1" ] || break
   done
 else
-  caught=BUILD-FAILED; grep -E "^error" -A 6 "$S/build.log" | head -12; tail -5 "$S/build.log"
+  caught=BUILD-FAILED; grep -E "^error" -A 6 "$S/build.log" | head -12
 fi
+(cd "$S/repo" && patch -p1 -R -s < "$src/patch.diff")
 echo "$name: suite_with_patch=$res_suite demo_with_patch=$res_demo_with demo_without_patch=$res_demo_without caught=$caught tier=$tier_used sig=$sig"
+[ -n "${msg:-}" ] && echo "    $msg"
 mkdir -p "$V/seeded/$name"
-cp "$src/patch.diff" "$src/demo.diff" "$V/seeded/$name/"
+[ "$src" -ef "$V/seeded/$name" ] || cp "$src/patch.diff" "$src/demo.diff" "$V/seeded/$name/"
 python3 - "$src/meta.json" "$V/seeded/$name/meta.json" "$res_suite" "$res_demo_with" "$res_demo_without" "$caught" "$tier_used" "$sig" <<'PY'
 import json,sys
 src,dst,suite,dw,dwo,caught,tier,sig=sys.argv[1:9]
 m=json.load(open(src))
 m["origin"]="written by an independent sub-agent that saw only the property text and a scratch worktree of /repo (nothing from /verif)"
-m["coordinator_verification"]={"existing_suite_with_patch":suite,"demo_with_patch":dw,"demo_without_patch":dwo,"how":"tools/seeded_eval.sh: scratch copy of /repo outside /repo and /verif; cargo test --workspace --offline with patch; demo with and without patch"}
+m["coordinator_verification"]={"existing_suite_with_patch":suite,"demo_with_patch":dw,"demo_without_patch":dwo,"how":"tools/seeded_eval.sh: scratch copy of /repo outside /repo and /verif; cargo test --workspace --offline with the patch; demonstration with and without the patch"}
 m["detected_by_check"]={"caught":caught,"tier":tier,"signature":sig,"command":f"./check {m.get('property','?')} {tier} (harness built against the patched scratch copy, VERIF_SEED=1)"}
 json.dump(m,open(dst,"w"),indent=1)
 PY
-rm -rf "$S"
